@@ -6,6 +6,9 @@ package remote
 // streamReader.Receive resolves it into SendLocal calls that land in recording processes.
 
 import (
+	"google.golang.org/protobuf/reflect/protodesc"
+	"google.golang.org/protobuf/types/descriptorpb"
+	"google.golang.org/protobuf/types/dynamicpb"
 	"google.golang.org/protobuf/reflect/protoregistry"
 	"google.golang.org/protobuf/reflect/protoreflect"
 	"context"
@@ -53,11 +56,54 @@ func vPayload(k int) any {
 		return struct{ X int }{7} // not a proto.Message
 	case 9:
 		return &actor.Ping{From: &actor.PID{Address: "\xff", ID: "y"}} // nested invalid UTF-8
+	case 10, 11: // two message types described at run time: different proto types, ONE Go type (*dynamicpb.Message)
+		vDynOnce.Do(vDynRegister)
+		if vDynA == nil {
+			return nil
+		}
+		if k == 10 {
+			m := dynamicpb.NewMessage(vDynA)
+			m.Set(vDynA.Fields().Get(0), protoreflect.ValueOfString("overheating"))
+			return m
+		}
+		m := dynamicpb.NewMessage(vDynB)
+		m.Set(vDynB.Fields().Get(0), protoreflect.ValueOfString("order-7"))
+		return m
 	}
 	return nil
 }
 
-const vNumPayloads = 10
+var (
+	vDynOnce   sync.Once
+	vDynA, vDynB protoreflect.MessageDescriptor
+)
+
+// vDynRegister describes verifdyn.Alarm{text} and verifdyn.Order{ref} and registers them in the global registries,
+// which is all ProtoSerializer needs to carry them.
+func vDynRegister() {
+	str := func(name string) *descriptorpb.FieldDescriptorProto {
+		return &descriptorpb.FieldDescriptorProto{Name: proto.String(name), Number: proto.Int32(1),
+			Type: descriptorpb.FieldDescriptorProto_TYPE_STRING.Enum(), Label: descriptorpb.FieldDescriptorProto_LABEL_OPTIONAL.Enum()}
+	}
+	fdp := &descriptorpb.FileDescriptorProto{Name: proto.String("verifdyn.proto"), Package: proto.String("verifdyn"), Syntax: proto.String("proto3"),
+		MessageType: []*descriptorpb.DescriptorProto{
+			{Name: proto.String("Alarm"), Field: []*descriptorpb.FieldDescriptorProto{str("text")}},
+			{Name: proto.String("Order"), Field: []*descriptorpb.FieldDescriptorProto{str("ref")}}}}
+	fd, err := protodesc.NewFile(fdp, protoregistry.GlobalFiles)
+	if err != nil {
+		return
+	}
+	if err := protoregistry.GlobalFiles.RegisterFile(fd); err != nil {
+		return
+	}
+	a, b := fd.Messages().Get(0), fd.Messages().Get(1)
+	if protoregistry.GlobalTypes.RegisterMessage(dynamicpb.NewMessageType(a)) != nil || protoregistry.GlobalTypes.RegisterMessage(dynamicpb.NewMessageType(b)) != nil {
+		return
+	}
+	vDynA, vDynB = a, b
+}
+
+const vNumPayloads = 12
 
 func vPayloadIndex(m any) string {
 	pm, ok := m.(proto.Message)
@@ -430,6 +476,15 @@ func TestVerifWire(t *testing.T) {
 	n := vgen.Scale(3000, 60000)
 	for i := 0; i < n; i++ {
 		emit(fmt.Sprintf("g%d", i), genWireBatch(r.Fork()))
+	}
+	// batches larger than the writer's inbox size (1024) and as large as one PopN (4096): the ring grows, Invoke gets them all
+	for i, size := range []int{1025, 1500, 4096} {
+		rr := r.Fork()
+		var big []vItem
+		for len(big) < size {
+			big = append(big, genWireBatch(rr)...)
+		}
+		emit(fmt.Sprintf("big%d", i), big[:size])
 	}
 }
 
